@@ -586,8 +586,8 @@ def run(ctx, covered_codes: set[int] | None = None) -> set[int]:
                 continue
             func_src = one_function(case["sig"], i, case["body"], opts)
             if opts.get("auto113"):
-                # FURB113's advice applied WHERE IT IS REPORTED: the maximal run of consecutive `recv.append(...)` statements that
-                # starts at the reported line becomes one `recv.extend((...))`
+                # FURB113's advice applied WHERE IT IS REPORTED: the pair of consecutive `recv.append(...)` statements that starts
+                # at the reported line (and the appends after it that do not read the list) becomes one `recv.extend((...))`
                 fl = src_lines[case["first"] - 1 : case["last"]]
                 for dg in sorted(hits, key=lambda x: x["line"], reverse=True):
                     k0 = dg["line"] - case["first"]
@@ -596,6 +596,10 @@ def run(ctx, covered_codes: set[int] | None = None) -> set[int]:
                         continue
                     args_, k1 = [m0.group(3)], k0 + 1
                     while k1 < len(fl) and (m1 := re.match(r"^(\s*)([\w.]+)\.append\((.*)\)\s*$", fl[k1])) and m1.group(1) == m0.group(1) and m1.group(2) == m0.group(2):
+                        # the message names TWO appends: the pair at the reported line is what it asks to merge; a later append
+                        # joins the tuple only while that is what a reader would do (its argument does not read the list)
+                        if len(args_) >= 2 and re.search(r"\b" + re.escape(m0.group(2)) + r"\b", m1.group(3)):
+                            break
                         args_.append(m1.group(3))
                         k1 += 1
                     fl[k0:k1] = [f"{m0.group(1)}{m0.group(2)}.extend(({', '.join(args_)},))"]
